@@ -49,7 +49,7 @@ func runFill(m *model.Model, s *ob.Set) {
 					continue
 				}
 				ia, ok := st.Addr.(*ssa.IndexAddr)
-				if !ok || !m.IsWordSlice(ia.X.Type()) {
+				if !ok || !isUintSlice(ia.X.Type()) {
 					continue
 				}
 				ph, ok := ia.Index.(*ssa.Phi)
@@ -124,6 +124,11 @@ func runFill(m *model.Model, s *ob.Set) {
 					}
 					if restDefined(m, fn, sc, l.sl) {
 						continue
+					}
+					if ia, ok := l.store.Addr.(*ssa.IndexAddr); ok {
+						if idx, ok := ia.Index.(*ssa.Phi); ok && zeroFilledFrom(m, sc, l.sl, idx) {
+							continue
+						}
 					}
 					_ = si
 					bad = append(bad, fmt.Sprintf("%s: the loop that defines the words of the destination (store at %s) can end on a condition that depends on data, and the words not yet written are neither cleared nor copied afterwards", m.InstrPos(ifi), m.InstrPos(l.store)))
@@ -220,7 +225,7 @@ func restDefined(m *model.Model, fn *ssa.Function, b *ssa.BasicBlock, sl ssa.Val
 						return true
 					}
 				}
-				if cal := x.Call.StaticCallee(); cal != nil && len(x.Call.Args) > 0 {
+				if cal := model.Unthunk(x.Call.StaticCallee()); cal != nil && len(x.Call.Args) > 0 {
 					if s2, ok := x.Call.Args[0].(*ssa.Slice); ok && sameSliceExpr(s2.X, sl) && s2.Low != nil {
 						return true
 					}
@@ -313,4 +318,75 @@ func runCopyRest(m *model.Model, s *ob.Set) {
 		}
 		s.Check(bad == "", R, fn.Name()+"/copy-rest", m.Pos(fn.Pos()), fmt.Sprintf("%d early exit(s) that copy the rest, each returning a carry of 0", n), bad+": the carry was absorbed (that is why the rest is copied), a non-zero return makes the caller add it once more")
 	}
+}
+
+// isUintSlice: a slice of machine words — the package's Word or math/big's (decToNat fills a
+// []big.Word the same way).
+func isUintSlice(t types.Type) bool {
+	sl, ok := t.Underlying().(*types.Slice)
+	if !ok {
+		return false
+	}
+	b, ok := sl.Elem().Underlying().(*types.Basic)
+	return ok && (b.Kind() == types.Uint || b.Kind() == types.Uintptr || b.Kind() == types.Uint64 || b.Kind() == types.Uint32)
+}
+
+// zeroFilledFrom: behind block b (within a few unconditional jumps) a second loop takes over the
+// counter idx of the filling loop and stores 0 into sl[j] for every j below len(sl):
+// for j := i; j < len(z); j++ { z[j] = 0 }.
+func zeroFilledFrom(m *model.Model, b *ssa.BasicBlock, sl ssa.Value, idx *ssa.Phi) bool {
+	for hops := 0; hops < 4 && b != nil; hops++ {
+		for _, in := range b.Instrs {
+			ph, ok := in.(*ssa.Phi)
+			if !ok {
+				break
+			}
+			takes, steps := false, false
+			for _, e := range ph.Edges {
+				if e == ssa.Value(idx) {
+					takes = true
+				}
+				if bo, ok := e.(*ssa.BinOp); ok && bo.Op == token.ADD && bo.X == ssa.Value(ph) {
+					if k, ok := model.ConstInt(bo.Y); ok && k == 1 {
+						steps = true
+					}
+				}
+			}
+			if !takes || !steps || len(b.Instrs) == 0 {
+				continue
+			}
+			ifi, ok := b.Instrs[len(b.Instrs)-1].(*ssa.If)
+			if !ok {
+				continue
+			}
+			bo, ok := ifi.Cond.(*ssa.BinOp)
+			if !ok || bo.Op != token.LSS || bo.X != ssa.Value(ph) {
+				continue
+			}
+			c, ok := stripConv(bo.Y).(*ssa.Call)
+			if !ok || model.BuiltinName(&c.Call) != "len" || !sameSliceExpr(c.Call.Args[0], sl) {
+				continue
+			}
+			// the body stores 0 at the counter on every iteration
+			body := b.Succs[0]
+			for _, bi := range body.Instrs {
+				st, ok := bi.(*ssa.Store)
+				if !ok {
+					continue
+				}
+				ia, ok := st.Addr.(*ssa.IndexAddr)
+				if !ok || ia.Index != ssa.Value(ph) || !sameSliceExpr(ia.X, sl) {
+					continue
+				}
+				if k, ok := model.ConstInt(st.Val); ok && k == 0 {
+					return true
+				}
+			}
+		}
+		if len(b.Succs) != 1 {
+			return false
+		}
+		b = b.Succs[0]
+	}
+	return false
 }
